@@ -79,11 +79,7 @@ def check(chk):
               'yields another key\'s bytes and the statement is routed to the wrong replicas' % [src(r.value)[:50] for r in rets_rk if r.value is not None and src(resolve(rk, r.value)) != 'cls._key_serializer(pk_values, protocol_version)'])
     meta = m.func('ModelMetaClass.__new__')
     s = src(meta)
-    good = 'key_cols = [c for c in partition_keys.values()]' in s and 'key_cql_types = [c.cql_type for c in key_cols]' in s and \
-        '[t.to_binary(p, proto_version) for t, p in zip(key_cql_types, parts)]' in s and \
-        'partition_key_index = dict(((col.db_field_name, col._partition_key_index) for col in key_cols))' in s
-    chk.judge(good, 'C38.serializer', meta, 'serializer zips the partition-key cql types (key order) with the parts; index map db_field_name -> key position', 'key serializer construction changed')
-    chk.judge('v._partition_key_index = partition_key_index' in s and 'partition_key_index += 1' in s, 'C38.serializer', meta, 'partition key positions assigned in declaration order', 'key position assignment changed')
+    _serializer_rules(chk, meta)
     # dense numbering: a position taken from the running counter is the one the column keeps (a column that overrides an inherited one
     # reuses the inherited position and must not consume a new one), otherwise the index map has a gap and parts[index] overflows
     chk.rule('C38.dense', 'the running partition-key counter is advanced only for a column that keeps the position taken from it (no later overwrite of v._partition_key_index in the same iteration)')
@@ -105,7 +101,6 @@ def check(chk):
         chk.judge(not bad, 'C38.dense', inc.ast, 'counter advanced only for a column that keeps its position',
                   'after the counter was advanced the same column\'s position is overwritten (%s): a subclass that re-declares an inherited partition key and adds another one gets a gapped '
                   'index map ({a: 0, b: 1, c: 3}); partition_key_values allocates 3 slots and parts[3] raises IndexError for every statement that fixes the whole key' % [src(b.ast) for b in bad])
-    chk.judge("attrs['_partition_key_index'] = partition_key_index" in s and "attrs['_key_serializer'] = key_serializer" in s, 'C38.serializer', meta, 'both stored on the model class', 'storage of index/serializer changed')
     # the driver type a key column is serialized with: looked up from this column's own db_type each time (db_type differs per subclass - a value cached on a class is
     # inherited by every subclass that has not cached its own yet)
     chk.rule('C38.type', 'Column.cql_type is _cqltypes[self.db_type], computed per call from the column\'s own db_type (no class-level cache)')
@@ -142,3 +137,147 @@ def check(chk):
     apk = st.func('AssignmentStatement.partition_key_values')
     chk.judge('self._update_part_key_values(field_index_map, self.assignments, parts)' in src(apk) and 'super(AssignmentStatement, self).partition_key_values(field_index_map)' in src(apk), 'C38.values', apk,
               'INSERT/UPDATE also take key values from their assignments', 'assignment contribution changed')
+
+
+def _stored_name(meta, key):
+    st = [x for x in body_walk(meta) if isinstance(x, ast.Assign) and len(x.targets) == 1 and isinstance(x.targets[0], ast.Subscript)
+          and src(x.targets[0].value) == 'attrs' and isinstance(x.targets[0].slice, ast.Constant) and x.targets[0].slice.value == key]
+    if len(st) != 1 or not isinstance(st[0].value, ast.Name):
+        raise AnalysisError("ModelMetaClass.__new__: attrs[%r] = <local> not found" % key)
+    return st[0].value.id, st[0]
+
+
+def _serializer_rules(chk, meta):
+    """the key serializer and the index map, whatever statements build them: the serializer maps (parts, proto) to
+    [T_i.to_binary(parts_i, proto)] with T the cql types of partition_keys.values() in order, whenever routing keys are computed for the model;
+    the index map sends each of those columns' db_field_name to its _partition_key_index"""
+    from .. import sem
+    FLAG = "attrs.get('__compute_routing_key__', True)"
+    g, fl = sem.flow_of(meta)
+    ew = sem.elementwise(meta)
+    ser_name, ser_store = _stored_name(meta, '_key_serializer')
+    idx_name, idx_store = _stored_name(meta, '_partition_key_index')
+
+    def over_partition_keys(it, depth=3):
+        """does the iterable text denote the partition key columns in key order"""
+        if it in ('partition_keys.values()', 'list(partition_keys.values())', 'tuple(partition_keys.values())'):
+            return True
+        if depth and it in ew:
+            ds = ew[it]
+            return len(ds) == 1 and ds[0][0][0] == 'list' and ds[0][0][2] == '_e0' and over_partition_keys(ds[0][0][1], depth - 1)
+        return False
+
+    def flag_at(stmt):
+        n = sem.node_of(g, stmt)
+        vals = set(fa.knows(FLAG) for fa, _c in fl.at(n))
+        return vals
+
+    # --- the serializer functions
+    sites = []
+    for st in body_walk(meta):
+        if isinstance(st, ast.Assign) and len(st.targets) == 1 and src(st.targets[0]) == ser_name:
+            v = st.value
+            if not (isinstance(v, ast.Call) and src(v.func) == 'staticmethod' and len(v.args) == 1):
+                raise AnalysisError('ModelMetaClass.__new__: %s is not a staticmethod(...)' % ser_name)
+            fn = v.args[0]
+            if isinstance(fn, ast.Lambda):
+                sites.append((fn, st))
+            elif isinstance(fn, ast.Name):
+                defs = [d for d in body_walk(meta) if isinstance(d, ast.FunctionDef) and d.name == fn.id]
+                if not defs:
+                    raise AnalysisError('ModelMetaClass.__new__: serializer function %s not found' % fn.id)
+                sites.extend((d, d) for d in defs)
+            else:
+                raise AnalysisError('ModelMetaClass.__new__: serializer %s not recognised' % src(fn)[:60])
+    if not sites:
+        raise AnalysisError('ModelMetaClass.__new__: no assignment of %s' % ser_name)
+
+    def describe(fn):
+        """'null' | ('zip', types name) | text of what is not recognised"""
+        ps = [a.arg for a in fn.args.args]
+        if len(ps) != 2:
+            return 'takes %d parameters' % len(ps)
+        if isinstance(fn, ast.Lambda):
+            rv = [fn.body]
+            loc = {}
+        else:
+            rv = [r.value for r in body_walk(fn) if isinstance(r, ast.Return)]
+            loc = sem.elementwise(fn)
+        if all(r is None or (isinstance(r, ast.Constant) and r.value is None) for r in rv):
+            return 'null'
+        if len(rv) != 1:
+            return 'has %d results' % len(rv)
+        r = rv[0]
+        d = None
+        if isinstance(r, ast.Name) and len(loc.get(r.id, ())) == 1:
+            d = loc[r.id][0][0]
+        elif r is not None:
+            d = sem._comp_descr(r)
+        if d is None or d[0] != 'list':
+            return 'result %s is not built element by element' % src(r)[:60]
+        it = ast.parse(d[1], mode='eval').body
+        if not (isinstance(it, ast.Call) and src(it.func) == 'zip' and len(it.args) == 2 and not it.keywords and all(isinstance(a_, ast.Name) for a_ in it.args)):
+            return 'iterates %s' % d[1]
+        a0, a1 = it.args[0].id, it.args[1].id
+        if a1 == ps[0] and d[2] == '_e0.to_binary(_e1, %s)' % ps[1]:
+            return ('zip', a0)
+        if a0 == ps[0] and d[2] == '_e1.to_binary(_e0, %s)' % ps[1]:
+            return ('zip', a1)
+        return 'element %s over %s' % (d[2], d[1])
+
+    nzip = 0
+    for fn, site in sites:
+        d = describe(fn)
+        flags = flag_at(site)
+        if d == 'null':
+            chk.judge(flags == {False}, 'C38.serializer', site, 'the serializer that yields no key is chosen only when __compute_routing_key__ is false',
+                      'a serializer that returns None is installed although routing keys are to be computed for the model (flag %s here)' % sorted(map(str, flags)))
+            continue
+        if isinstance(d, tuple):
+            tn = d[1]
+            tds = ew.get(tn, [])
+            okt = len(tds) == 1 and tds[0][0][0] == 'list' and tds[0][0][2] == '_e0.cql_type' and over_partition_keys(tds[0][0][1])
+            nzip += 1
+            chk.judge(okt, 'C38.serializer', site, 'serializer: [T.to_binary(p, proto) for T, p in zip(%s, parts)], %s = cql types of partition_keys.values() in key order' % (tn, tn),
+                      'the type list %s the serializer zips with the key values is not the cql_type of each partition key column in key order (%s)'
+                      % (tn, [x[0] for x in tds] or 'not built element by element'))
+        else:
+            chk.viol('C38.serializer', site, 'key serializer is not [T.to_binary(part, proto) for T, part in zip(types, parts)]: %s' % d)
+    chk.judge(nzip >= 1, 'C38.serializer', meta, 'a serializing key serializer exists', 'no serializer that encodes the key components is installed')
+
+    # --- the index map
+    live = [(d, st) for d, st in ew.get(idx_name, []) if flag_at(st) != {False}]
+    okm = len(live) == 1 and live[0][0][2] == ('_e0.db_field_name', '_e0._partition_key_index') and over_partition_keys(live[0][0][1])
+    chk.judge(okm, 'C38.serializer', live[0][1] if live else meta, 'index map: db_field_name -> _partition_key_index for each column of partition_keys.values()',
+              'the index map is not {col.db_field_name: col._partition_key_index for col in partition_keys.values()} (%s)' % [d for d, _s in live])
+    if live:
+        # nothing rebinds the map between its construction and the store on the class (other than the arm for models without routing keys)
+        start = sem.node_of(g, live[0][1])
+        seen, work, bad = set(), [x for x, _l in start.succ], []
+        while work:
+            n = work.pop()
+            if n.id in seen:
+                continue
+            seen.add(n.id)
+            if n.kind == 'stmt' and n.ast is idx_store:
+                continue
+            if n.kind == 'stmt' and n.ast is not live[0][1] and isinstance(n.ast, (ast.Assign, ast.AugAssign)) and \
+                    any(isinstance(t, ast.Name) and t.id == idx_name for t in (n.ast.targets if isinstance(n.ast, ast.Assign) else [n.ast.target])):
+                bad.append(n)
+                continue
+            work.extend(x for x, _l in n.succ)
+        chk.judge(not bad, 'C38.serializer', idx_store, 'the map built is the one stored on the class', 'the index map is rebound before it is stored (%s)' % [src(b.ast)[:60] for b in bad])
+
+    # --- positions are handed out from a running counter in declaration order
+    okc = False
+    for body in [n.body for n in ast.walk(meta) if isinstance(n, (ast.If, ast.For))] + [n.orelse for n in ast.walk(meta) if isinstance(n, ast.If)]:
+        for i, st in enumerate(body):
+            if isinstance(st, ast.Assign) and len(st.targets) == 1 and isinstance(st.targets[0], ast.Attribute) and st.targets[0].attr == '_partition_key_index' \
+                    and isinstance(st.value, ast.Name):
+                c = st.value.id
+                for nx in body[i + 1:]:
+                    if isinstance(nx, ast.AugAssign) and isinstance(nx.op, ast.Add) and src(nx.target) == c and src(nx.value) == '1':
+                        okc = True
+                    if isinstance(nx, ast.Assign) and src(nx.targets[0]) == c and src(nx.value) in ('%s + 1' % c, '1 + %s' % c):
+                        okc = True
+    chk.judge(okc, 'C38.serializer', meta, 'partition key positions assigned from a counter advanced by one per key column, in declaration order', 'key position assignment changed')
